@@ -4,7 +4,7 @@ import CV.Proofs.ChainTotal
 # C13 — Chain coder: decoding then re-encoding restores the original data exactly
 
 All statements are about the Impl model `CV.Chain` (`CV/Model/Chain.lean`), for every
-`Cfg` the crate admits.  `CValid c` (`1 ≤ P ≤ B ≤ W`, `W + P ≤ S`) is what the chain coder's own
+`Cfg` the crate allows.  `CValid c` (`1 ≤ P ≤ B ≤ W`, `W + P ≤ S`) is what the chain coder's own
 static assertions and trait bounds require; it is implied by `Cfg.Valid` (`CValid.of_valid`),
 so every theorem below holds in particular for all `c.Valid`.  `PrecOk W S q` is the part that
 does not involve an entropy model.  Stacks are lists with the top of the stack first.
